@@ -333,6 +333,8 @@ def prepare(cfg):
         _mutate(cfg['mutant'])
     prog = cfg['prog']
     text = tprog.serialise(prog)
+    if cfg.get('crlf'):
+        text = text.replace('\n', '\r\n')      # Windows line endings (normalised by the engine outside XML mode)
     STATE['text'] = text
     opts = dict(cfg.get('options', {}))
     if 'implicit_i18n_attributes' in opts:
@@ -446,9 +448,11 @@ def run_engine(bindings):
         return ('ok', out, list(LOG))
     except Exception as exc:
         extra = None
+        loc = None
         if hasattr(exc, 'token') and hasattr(exc, 'offset'):
             extra = (str(exc.token), exc.offset)
-        return ('exc', _base_name(exc), list(LOG), extra)
+            loc = getattr(exc.token, 'location', None)
+        return ('exc', _base_name(exc), list(LOG), extra, loc)
 
 
 def _base_name(exc):
